@@ -285,8 +285,14 @@ def push (f : Fixed α) (x : α) : Fixed α × α :=
   let next := if f.first + 1 = f.len then 0 else f.first + 1
   ({ data := f.data.set f.first x, first := next }, f.data[f.first]!)
 
-/-- lib.rs:231, 243: `(self.first + index) % self.len()` -/
-def wrapped (f : Fixed α) (i : Nat) : Nat := (f.first + i) % f.len
+/-- lib.rs:231, 243 (since fix commit 5f913b5): `(self.first + index % self.len()) % self.len()` —
+    the index is reduced before the offset is added, so the usize sum stays below `2 * len` -/
+def wrapped (f : Fixed α) (i : Nat) : Nat := (f.first + i % f.len) % f.len
+
+/-- the expression used BEFORE fix commit 5f913b5, `(self.first + index) % self.len()`, evaluated the
+    way a build without overflow checks evaluates it on a 64-bit target (the sum wraps modulo 2^64);
+    kept only for the historical counter-witness in Props/C06.lean -/
+def wrappedOld64 (f : Fixed α) (i : Nat) : Nat := ((f.first + i) % 2 ^ 64) % f.len
 
 /-- lib.rs:230-233 (checked index) -/
 def get (f : Fixed α) (i : Nat) : α := f.data[f.wrapped i]!
